@@ -138,6 +138,41 @@ def resize (env : Env) (v : Vec) (newLen : Nat) (value : Id) (o : List Outcome) 
       | .ret _ => .ok ⟨dropArg r.vec value, if env.bombs.contains value then .panic true else .ret (), o⟩
       | .panic d => .ok ⟨dropArg r.vec value, .panic d, o⟩
 
+/-- `generic_resize_with(new_len, f)` — `fixed_bump_vec.rs` l.1819-1831, `bump_vec.rs` l.2162-2174: grows
+    through `extend_trusted(repeat_with(f).take(n))` (`bump_vec.rs` l.2862-2903): under
+    `SetLenOnDropByPtr`, `ptr.add(local_len).write(f()); local_len += 1` for each element; a panicking
+    `f` leaves what was written so far -/
+def resizeWith (env : Env) (v : Vec) (newLen : Nat) (o : List Outcome) : M (Out Unit) :=
+  if newLen > v.len then
+    let n := newLen - v.len
+    match reserve env v n with
+    | none => .ok ⟨v, .panic false, o⟩
+    | some v =>
+      match extendWithLoop n v v.len v.len o with
+      | .error e => .error e
+      | .ok (v, _, localLen, panicked, o) => .ok ⟨setLen v localLen, if panicked then .panic false else .ret (), o⟩
+  else
+    match truncate env.bombs v newLen with
+    | .error e => .error e
+    | .ok r => .ok ⟨r.vec, r.exit, o⟩
+
+/-- `pop_if(predicate)` — `fixed_bump_vec.rs` l.460-463: `let last = self.last_mut()?; if predicate(last) { self.pop() } else { None }` -/
+def popIf (v : Vec) (o : List Outcome) : M (Out (Option Id)) :=
+  if v.len = 0 then .ok ⟨v, .ret none, o⟩
+  else
+    match peek v (v.len - 1) with
+    | .error e => .error e
+    | .ok _ =>
+      match o with
+      | [] => .ok ⟨v, .panic false, []⟩
+      | .panic :: o => .ok ⟨v, .panic false, o⟩
+      | .ret b :: o =>
+        if b ≠ 0 then
+          match pop v with
+          | .error e => .error e
+          | .ok r => .ok ⟨r.vec, r.exit, o⟩
+        else .ok ⟨v, .ret none, o⟩
+
 /-- `generic_append(other)` — `fixed_bump_vec.rs` l.1891-1906, `bump_vec.rs` l.2234-2250, with `other`
     an owned slice (`BumpBox<[T]>`, a vector): returns `(self, other)` afterwards -/
 def append (env : Env) (v other : Vec) : M (Out Unit × Vec) :=
